@@ -8,8 +8,9 @@ import Mathlib.Algebra.Order.Field.Rat
 `Gen.lean` is written by `harness/cmd/c03 extract` from the tree under test on every run; here every
 regenerated function is proved to return exactly the value of the hand-written model
 (`Model.lean`) that the property theorems are about — for every input, and (except where the model
-itself faults: `Polygon.Centroid` on an empty ring) **without fault**: the index expressions of the
-loops never leave the slice.  If the Go source changes so that a function no longer denotes the
+itself faults: `Polygon.Centroid` on an empty ring, `Point.Buffer` on invalid arguments) **without
+fault**: the index expressions of the loops never leave the slice, `make` never gets a negative
+length, `%` never divides by zero, no box pointer is nil.  If the Go source changes so that a function no longer denotes the
 model's, this module stops compiling and the obligation is reported as broken.
 -/
 set_option linter.unusedSimpArgs false
@@ -645,6 +646,108 @@ theorem C03_tie_op_Centroid_core (p : Poly) : Gen.op_Centroid_core p = .ok (opCe
     · simp [pairFold_sum2]
     · intro s i a b ha hb
       simp [idx_some r i a ha, idx_some_succ r i b hb, cxF, cyF]
+
+/-! ## the range guards of the centroids -/
+
+/-- `centroidAxisScale` (one statement group: `Frexp`/`Ldexp` is `pow2Floor`) -/
+theorem C03_tie_centroidAxisScale (m : Rat) : Gen.centroidAxisScale m = .ok (axisScale m) := rfl
+
+theorem ring_pair_foldl : ∀ (r : List P) (s : Rat × Rat),
+    r.foldl (fun s v => (max s.1 (absR v.x), max s.2 (absR v.y))) s
+      = (r.foldl (fun m v => max m (absR v.x)) s.1, r.foldl (fun m v => max m (absR v.y)) s.2) := by
+  intro r
+  induction r with
+  | nil => intro s; rfl
+  | cons v t ih => intro s; simp only [List.foldl_cons]; rw [ih]
+
+theorem poly_pair_foldl : ∀ (p : Poly) (s : Rat × Rat),
+    p.foldl (fun s r => r.foldl (fun s v => (max s.1 (absR v.x), max s.2 (absR v.y))) s) s
+      = (p.foldl (fun m r => r.foldl (fun m v => max m (absR v.x)) m) s.1,
+         p.foldl (fun m r => r.foldl (fun m v => max m (absR v.y)) m) s.2) := by
+  intro p
+  induction p with
+  | nil => intro s; rfl
+  | cons r t ih => intro s; simp only [List.foldl_cons]; rw [ring_pair_foldl, ih]
+
+/-- `centroidScale(rings...)` as regenerated returns, without fault, the model's two factors of all the rings -/
+theorem C03_tie_centroidScale (rings : MPoly) :
+    Gen.centroidScale rings = .ok (axisScale (maxAbsX rings.flatten), axisScale (maxAbsY rings.flatten)) := by
+  unfold Gen.centroidScale
+  simp only [bind, Except.bind, pure, Except.pure]
+  rw [forRange_foldl (fun (s : Rat × Rat) (p : Poly) =>
+    p.foldl (fun s r => r.foldl (fun s v => (max s.1 (absR v.x), max s.2 (absR v.y))) s) s)]
+  · have e : rings.foldl (fun (s : Rat × Rat) (p : Poly) =>
+          p.foldl (fun s r => r.foldl (fun s v => (max s.1 (absR v.x), max s.2 (absR v.y))) s) s) (0, 0)
+        = rings.flatten.foldl (fun s r => r.foldl (fun s v => (max s.1 (absR v.x), max s.2 (absR v.y))) s) (0, 0) :=
+      (List.foldl_flatten).symm
+    simp only [C03_tie_centroidAxisScale]
+    rw [e, poly_pair_foldl]
+    rfl
+  · intro s i p
+    rw [forRange_foldl (fun (s : Rat × Rat) (r : Ring) => r.foldl (fun s v => (max s.1 (absR v.x), max s.2 (absR v.y))) s)]
+    intro s i r
+    rw [forRange_foldl (fun (s : Rat × Rat) (v : P) => (max s.1 (absR v.x), max s.2 (absR v.y)))]
+    intro s i v
+    rfl
+
+theorem fdiv_ok (a k : Rat) (hk : k ≠ 0) : Go.fdiv a k = .ok (a / k) := by
+  simp [Go.fdiv, hk, pure, Except.pure]
+
+/-- `Polygon.scaled(kx, ky)` as regenerated returns for non-zero factors (in Go a division by zero gives ±Inf/NaN, not
+a panic; `centroidScale` returns powers of two), without fault, the model's `scalePoly` -/
+theorem C03_tie_scaled (p : Poly) (kx ky : Rat) (hx : kx ≠ 0) (hy : ky ≠ 0) :
+    Gen.polygon_scaled p kx ky = .ok (scalePoly kx ky p) := by
+  unfold Gen.polygon_scaled scalePoly
+  simp only [len_eq, make_ok, bind, Except.bind, pure, Except.pure]
+  rw [forRange_fill (scaleRing kx ky)]
+  intro o i r _ hi
+  simp only [make_ok, setIdx_ok o i _ hi, bind, Except.bind, pure, Except.pure, Go.forRange]
+  have hi' : i < (o.set i (List.replicate r.length (⟨0, 0⟩ : P))).length := by simpa using hi
+  refine Eq.trans (forRangeAux_row (fun v : P => (⟨v.x / kx, v.y / ky⟩ : P)) i _ ?_
+    r (o.set i (List.replicate r.length (⟨0, 0⟩ : P))) [] (List.replicate r.length (⟨0, 0⟩ : P)) hi' (by simp) (by simp)) ?_
+  · intro o j x hi hj
+    simp [setIdx2_ok o i j _ hi hj, fdiv_ok _ kx hx, fdiv_ok _ ky hy, bind, Except.bind, pure, Except.pure]
+  · simp [scaleRing]
+
+theorem pow2_ne_zero (i : Int) : pow2 i ≠ 0 := by
+  unfold pow2; split <;> simp
+
+theorem axisScale_ne_zero (m : Rat) : axisScale m ≠ 0 := by
+  unfold axisScale
+  split
+  · unfold pow2Floor; simp only []; split <;> exact pow2_ne_zero _
+  · simp
+
+/-- `Polygon.Centroid` as regenerated (its call of itself on the rescaled copy read as the loops below the guard)
+returns the model's `polygonCentroid`, fault for fault -/
+theorem C03_tie_Centroid (p : Poly) : Gen.polygon_Centroid p = Go.lift (polygonCentroid p) := by
+  unfold Gen.polygon_Centroid polygonCentroid centScale
+  simp only [C03_tie_centroidScale, List.flatten_cons, List.flatten_nil, List.append_nil, bind, Except.bind, pure,
+    Except.pure]
+  by_cases h : axisScale (maxAbsX p) ≠ 1 ∨ axisScale (maxAbsY p) ≠ 1
+  · have hd : (decide (axisScale (maxAbsX p) ≠ 1) || decide (axisScale (maxAbsY p) ≠ 1)) = true := by simpa using h
+    simp only [hd, h, if_true, C03_tie_scaled p _ _ (axisScale_ne_zero _) (axisScale_ne_zero _), C03_tie_Centroid_core]
+    cases polygonCentroidCore (scalePoly (axisScale (maxAbsX p)) (axisScale (maxAbsY p)) p) <;> rfl
+  · have hd : (decide (axisScale (maxAbsX p) ≠ 1) || decide (axisScale (maxAbsY p) ≠ 1)) = false := by simpa using h
+    simp only [hd, h, if_false, Bool.false_eq_true, C03_tie_Centroid_core]
+
+/-- `MultiPolygon.Centroid` as regenerated returns, without fault, the model's `multiPolygonCentroid` -/
+theorem C03_tie_MultiPolygon_Centroid (mp : MPoly) :
+    Gen.multiPolygon_Centroid mp = .ok (multiPolygonCentroid mp) := by
+  unfold Gen.multiPolygon_Centroid multiPolygonCentroid centScale
+  simp only [C03_tie_centroidScale, bind, Except.bind, pure, Except.pure]
+  by_cases h : axisScale (maxAbsX mp.flatten) ≠ 1 ∨ axisScale (maxAbsY mp.flatten) ≠ 1
+  · have hd : (decide (axisScale (maxAbsX mp.flatten) ≠ 1) || decide (axisScale (maxAbsY mp.flatten) ≠ 1)) = true := by
+      simpa using h
+    simp only [hd, h, if_true, len_eq, make_ok]
+    rw [forRange_fill (scalePoly (axisScale (maxAbsX mp.flatten)) (axisScale (maxAbsY mp.flatten)))]
+    · simp only [C03_tie_MultiPolygon_Centroid_core]
+    · intro o i p _ hi
+      simp [C03_tie_scaled p _ _ (axisScale_ne_zero _) (axisScale_ne_zero _), setIdx_ok o i _ hi, bind, Except.bind,
+        pure, Except.pure]
+  · have hd : (decide (axisScale (maxAbsX mp.flatten) ≠ 1) || decide (axisScale (maxAbsY mp.flatten) ≠ 1)) = false := by
+      simpa using h
+    simp only [hd, h, if_false, Bool.false_eq_true, C03_tie_MultiPolygon_Centroid_core]
 
 /-! ## bounds.go -/
 
